@@ -10,6 +10,8 @@ package memberlist
 import (
 	"bytes"
 	"fmt"
+	"io"
+	"log"
 	"testing"
 )
 
@@ -179,6 +181,21 @@ func vkRotation(st *vfStats, n int, r *vfRng, exhaustive bool) {
 						return
 					}
 				}
+				// the stream path (push/pull, reliable user messages, TCP ping) seals and opens with its own
+				// functions
+				mi, mj := vkShell(rings[i]), vkShell(rings[j])
+				smsg := []byte("rotation-probe-stream")
+				enc, err := mi.encryptLocalState(smsg, "lbl")
+				pairs++
+				if err != nil || len(enc) < 1 {
+					st.Extra["oracle_rotation"] = fmt.Sprintf("%s: stream encrypt failed: %v", where, err)
+					return
+				}
+				plain, err := mj.decryptRemoteState(bytes.NewReader(enc[1:]), "lbl")
+				if err != nil || !bytes.Equal(plain, smsg) {
+					st.Extra["oracle_rotation"] = fmt.Sprintf("%s: node %d cannot read node %d's stream: %v", where, j, i, err)
+					return
+				}
 			}
 		}
 	}
@@ -218,6 +235,14 @@ func vkRotation(st *vfStats, n int, r *vfRng, exhaustive bool) {
 	}
 	st.Extra[fmt.Sprintf("rotation_n%d_steps", n)] = steps
 	st.Extra[fmt.Sprintf("rotation_n%d_pair_checks", n)] = pairs
+}
+
+// just enough of a node to use its stream sealing functions
+func vkShell(r *Keyring) *Memberlist {
+	cfg := DefaultLANConfig()
+	cfg.Keyring = r
+	cfg.Logger = log.New(io.Discard, "", 0)
+	return &Memberlist{config: cfg, logger: cfg.Logger}
 }
 
 func vkPerms(n int) [][]int {
